@@ -43,7 +43,7 @@ def gen_case(rng, tier, i):
         'sims': sims,
         'delays': wavegen.gen_delays(rng, n_sets=rng.choice([1, 1, 1, 2])),
         'caps': wavegen.gen_caps(rng, p_fault=0.4),
-        'batches': wavegen.gen_batches(rng, n_max=3, sims=sims, p_reprop=0.1),
+        'argforms': wavegen.gen_argforms(rng), 'batches': wavegen.gen_batches(rng, n_max=3, sims=sims, p_reprop=0.1),
         'actrl': wavegen.gen_actrl(rng),
         'knobs': {'c_reuse': rng.random() < 0.5, 'strip_forks': rng.random() < 0.5},
     }
